@@ -193,19 +193,31 @@ class MultiTerm(qcore.Query):
         else:
             return qcore.NullQuery
 
+    def _field_btexts(self, ixreader):
+        # The query text may not be convertible to a term of the field's type
+        # (e.g. a prefix or wildcard on a numeric or date field): then no term
+        # of the field can match
+        try:
+            return list(self._btexts(ixreader))
+        except (ValueError, ArithmeticError, TypeError):
+            return []
+
     def estimate_size(self, ixreader):
         fieldname = self.field()
         if fieldname not in ixreader.schema:
             return 0
         return sum(ixreader.doc_frequency(fieldname, btext)
-                   for btext in self._btexts(ixreader))
+                   for btext in self._field_btexts(ixreader))
 
     def estimate_min_size(self, ixreader):
         fieldname = self.field()
         if fieldname not in ixreader.schema:
             return 0
+        btexts = self._field_btexts(ixreader)
+        if not btexts:
+            return 0
         return min(ixreader.doc_frequency(fieldname, text)
-                   for text in self._btexts(ixreader))
+                   for text in btexts)
 
     def matcher(self, searcher, context=None):
         from whoosh.query import Or
@@ -220,7 +232,7 @@ class MultiTerm(qcore.Query):
         reader = searcher.reader()
         # (the empty string is a term like any other: an ID field whose value
         # is "" indexes it)
-        qs = [Term(fieldname, word) for word in self._btexts(reader)]
+        qs = [Term(fieldname, word) for word in self._field_btexts(reader)]
         if not qs:
             return matching.NullMatcher()
 
